@@ -1,2 +1,108 @@
--- Driver stub for C08 (replaced when the property's model driver is written).
-def main : IO Unit := IO.println "C08: no driver yet"
+import TsVerif.Common.IO
+import TsVerif.C08.Judge
+/-!
+Driver for C08.  Input: per case a sequence of *states* (dumps of every live handle) separated by
+operations:
+
+    case <id> mode=<fresh|persist>
+    state <number of handles ever created>
+    handle <h>
+    tree …            (dump_tree output)
+    end
+    endstate
+    op <copy h new | delete h | edit h <9 numbers> | reparse h new | parse new | query h | walk h>
+    state … endstate
+    run
+
+Each `run` prints `<id>.<k> op=… corr=<ok|na|DIFF:…> judge=<ok|FAIL:…> cells=… shared=… handles=… visited=…`.
+-/
+open TsVerif TsVerif.C08 TsGen
+
+structure St where
+  id : String := ""
+  exact : Bool := true
+  step : Nat := 0
+  prev : Option (Nat × List (Nat × TsVerif.Tree)) := none
+  cur : List (Nat × TsVerif.Tree) := []
+  nh : Nat := 0
+  curH : Nat := 0
+  lines : Array String := #[]
+  inDump : Bool := false
+  op : List String := []
+
+def padHandles (s : State NodeData) (n : Nat) : State NodeData :=
+  { s with handles := s.handles ++ List.replicate (n - s.handles.length) none }
+
+def parseEdit (ws : List String) : Option TSInputEdit :=
+  match ws.map natOf with
+  | [sb, oeb, neb, sr, sc, oer, oec, ner, nec] =>
+    some { start_byte := sb, old_end_byte := oeb, new_end_byte := neb
+           start_point := { row := sr, column := sc }
+           old_end_point := { row := oer, column := oec }
+           new_end_point := { row := ner, column := nec } }
+  | _ => none
+
+def sharedCells (s : State NodeData) : Nat :=
+  (s.heap.filter fun o => match o with | some c => c.rc > 1 | none => false).length
+
+def runStep (st : St) : String :=
+  let cid := s!"{st.id}.{st.step}"
+  let (after, incA) := loadState st.cur
+  let after := padHandles after st.nh
+  let stats := s!"cells={liveCount after.heap} shared={sharedCells after} handles={(after.handles.filter Option.isSome).length}"
+  let rcJ := match incA with
+    | some m => some s!"inconsistent-dump:{m}"
+    | none => (judgeRc after st.exact).map fun m => s!"rc_invariant:{m}"
+  match st.prev with
+  | none =>
+    let j := match rcJ with | some m => s!"FAIL:{m}" | none => "ok"
+    s!"{cid} op=init corr=na judge={j} {stats} visited=0"
+  | some (nhB, hsB) =>
+    let (before, _) := loadState hsB
+    let before := padHandles before nhB
+    let opName := st.op.headD "?"
+    let h := natOf (st.op.getD 1 "0")
+    -- model prediction
+    let (model, visited) : Option (State NodeData) × Nat := match st.op with
+      | "copy" :: _ => (some (before.copy h), 0)
+      | "delete" :: _ => (some (before.delete h), 0)
+      | "edit" :: _ :: ws =>
+        match parseEdit ws, hsB.lookup h with
+        | some e, some t =>
+          let spec := visitSpec t (C10.Edit.ofInput e)
+          (some (before.edit h spec), specVisited spec)
+        | _, _ => (none, 0)
+      | _ => (none, 0)
+    let corr := match model with
+      | none => "na"
+      | some m => match diffStates (padHandles m st.nh) after with
+        | none => "ok"
+        | some d => s!"DIFF:{d}"
+    let target : Option Nat := match opName with
+      | "edit" => some h
+      | "delete" => some h
+      | _ => none
+    let isoJ := (judgeIsolated before after target).map fun m => s!"isolation:{m}"
+    let j := match rcJ <|> isoJ with | some m => s!"FAIL:{m}" | none => "ok"
+    s!"{cid} op={opName} corr={corr} judge={j} {stats} visited={visited}"
+
+def step (s : St) (line : String) : IO St := do
+  if s.inDump then
+    if line == "end" then
+      match parseDump s.lines.toList with
+      | some d => return { s with inDump := false, lines := #[], cur := s.cur ++ [(s.curH, d.root)] }
+      | none => return { s with inDump := false, lines := #[] }
+    else return { s with lines := s.lines.push line }
+  match line.splitOn " " with
+  | ["case", id, mode] => return { id := id, exact := mode != "mode=persist" }
+  | ["state", n] => return { s with cur := [], nh := natOf n }
+  | ["handle", h] => return { s with curH := natOf h, inDump := true, lines := #[] }
+  | ["endstate"] => return s
+  | "op" :: ws => return { s with op := ws }
+  | ["run"] =>
+    IO.println (runStep s)
+    return { s with prev := some (s.nh, s.cur), cur := [], step := s.step + 1, op := [] }
+  | _ => return s
+
+def main : IO Unit := do
+  let _ ← foldLines (← IO.getStdin) ({} : St) step
